@@ -275,7 +275,7 @@ NP_FUNCS = {
     'numpy.broadcast_to': lambda x, shape: np.broadcast_to(np.asarray(x, dtype=object), tuple(int(v) for v in shape)).copy(),
     'numpy.atleast_2d': lambda x: np.atleast_2d(np.asarray(x, dtype=object)), 'numpy.atleast_1d': lambda x: np.atleast_1d(np.asarray(x, dtype=object)),
     'numpy.float64': lambda x: x, 'numpy.int64': lambda x: x,
-    'numpy.identity': _identity, 'numpy.eye': _identity,
+    'numpy.identity': _identity, 'numpy.eye': _identity, 'numpy.arange': lambda *a, **k: arr([sp.Integer(i) for i in range(*[int(x) for x in a])]) if len(range(*[int(x) for x in a])) else np.empty(0, dtype=object),
     'numpy.cos': lambda x: vmap(sp.cos, x), 'numpy.sin': lambda x: vmap(sp.sin, x), 'numpy.tan': lambda x: vmap(sp.tan, x),
     'numpy.arctan': lambda x: vmap(sp.atan, x), 'numpy.arctan2': lambda y, x: sp.atan2(y, x),
     'numpy.arccos': lambda x: vmap(sp.acos, x), 'numpy.arcsin': lambda x: vmap(sp.asin, x),
@@ -687,6 +687,8 @@ class SymEval:
             raise Opaque('subscript %s: %s' % (norm(n), e))
         if isinstance(base, sp.Basic) and idx is Ellipsis:
             return base
+        if isinstance(base, (int, sp.Integer, float, sp.Float)) and not isinstance(base, bool):
+            raise WouldRaise('TypeError: %s is not subscriptable in %s' % (type(base).__name__, norm(n)))
         raise Opaque('subscript of %s: %s' % (type(base).__name__, norm(n)))
 
     def index(self, s, p):
@@ -702,8 +704,26 @@ class SymEval:
             return [int(x) for x in v]
         return v
 
+    _TYPES = {'int': (int, sp.Integer), 'float': (float, sp.Float, sp.Rational), 'str': (str,), 'tuple': (tuple,), 'list': (list,), 'dict': (dict,),
+              'bool': (bool,), 'np.integer': (int, sp.Integer), 'numpy.integer': (int, sp.Integer), 'np.ndarray': (np.ndarray,), 'numpy.ndarray': (np.ndarray,),
+              'np.floating': (float, sp.Float), 'Integral': (int, sp.Integer), 'Real': (int, float, sp.Integer, sp.Float, sp.Rational)}
+
+    def _isinstance(self, n, p):
+        v = self.ev(n.args[0], p)
+        tys = n.args[1].elts if isinstance(n.args[1], ast.Tuple) else [n.args[1]]
+        out = False
+        for t in tys:
+            key = norm(t)
+            if key not in self._TYPES:
+                raise Opaque('isinstance against %s' % key)
+            if isinstance(v, self._TYPES[key]) and not (isinstance(v, bool) and key != 'bool'):
+                out = True
+        return out
+
     def e_Call(self, n, p):
         # kwargs.pop / 'K' in kwargs etc. are handled by getattr on dict
+        if isinstance(n.func, ast.Name) and n.func.id == 'isinstance' and 'isinstance' not in p.env and len(n.args) == 2:
+            return self._isinstance(n, p)
         f = self.ev(n.func, p)
         args = []
         for a in n.args:
@@ -885,6 +905,8 @@ class SymEval:
                 else:
                     key = '_%s%s' % (base.cls.name, t.attr) if (base.cls is not None and t.attr.startswith('__') and not t.attr.endswith('__')) else t.attr
                     base.attrs[key] = v
+            elif is_arr(base) and t.attr == 'shape':
+                base.shape = tuple(int(x) for x in v)
             else:
                 raise Opaque('store into %s' % norm(t))
         else:
